@@ -145,6 +145,47 @@ type runner struct {
 	runMu      sync.Mutex
 	pendingRun map[string]bool // launched tasks whose TASK_RUNNING has not been sent yet
 	failNote   string
+	barriers   int    // RECONCILE calls whose answers are known to have been handled by the core
+	markers    int    // marker updates sent so far
+	memID      string // framework id the current life held before its latest SUBSCRIBE
+}
+
+const markerPrefix = "verif-marker-"
+
+// patience: how long a sample waits for something the core does asynchronously (cold or loaded
+// machine); only reached when the awaited thing never happens, i.e. on a violation.
+const patience = 6 * time.Second
+
+// reconcileBarrier waits until the core has handled every answer of every RECONCILE call seen so
+// far (simcore/reconbarrier.go): the master has put all its answers on the event stream, and a
+// marker update sent behind them - reconciliation, TASK_RUNNING, a task id nobody knows - has
+// come back as the KILL the rule prescribes for it.  Event loop and message queue are FIFO and
+// handleMessage sends its KILLs synchronously, so every KILL the real answers cause has been
+// recorded by then.  Bounded: a core that no longer answers the marker is sampled as it is.
+func (r *runner) reconcileBarrier() {
+	n := 0
+	for _, c := range r.s.CallsSnapshot() {
+		if c.Type == "RECONCILE" {
+			n++
+		}
+	}
+	if n <= r.barriers {
+		return
+	}
+	simcore.WaitFor(patience, func() bool { return simcore.ReconcileRuns() >= int64(n) })
+	r.markers++
+	id := fmt.Sprintf("%s%d", markerPrefix, r.markers)
+	from := len(r.s.CallsSnapshot())
+	r.s.PushReconciliationUpdate(id, "verif-agent", mesos.TASK_RUNNING)
+	simcore.WaitFor(patience, func() bool {
+		for _, c := range r.s.CallsSnapshot()[from:] {
+			if c.Type == "KILL" && c.Kill == id {
+				return true
+			}
+		}
+		return false
+	})
+	r.barriers = n
 }
 
 func (r *runner) fingerprint() string {
@@ -186,16 +227,70 @@ func (r *runner) consistent() bool {
 	return pend == 0
 }
 
+// reconciled: the chain a (re)subscription of the current operation sets off has run to its end,
+// as far as that can be told without predicting its outcome: the implicit RECONCILE has followed
+// the last SUBSCRIBE, the id the master answered is in the store if it is not the one the life held
+// before (controller.TrackSubscription writes the store iff the id changed), and every task the master
+// reports in its reconciliation answers (alive, not STAGING, of the asking framework) is in the
+// roster or has received a KILL.  It only makes settle wait longer (bounded: a core that does not
+// store the id or does not kill never gets there), it decides nothing.
+func (r *runner) reconciled() bool {
+	calls := r.s.CallsSnapshot()
+	if r.callPos > len(calls) {
+		return true
+	}
+	win := calls[r.callPos:]
+	lastSub, lastRec := -1, -1
+	killed := map[string]bool{}
+	for i, c := range win {
+		switch c.Type {
+		case "SUBSCRIBE":
+			lastSub = i
+		case "RECONCILE":
+			lastRec = i
+		case "KILL":
+			killed[c.Kill] = true
+		}
+	}
+	if lastSub < 0 {
+		return true
+	}
+	if lastRec < lastSub {
+		return false
+	}
+	fw := win[lastSub].FwID
+	if fw != r.memID { // the id changed: TrackSubscription stores it
+		if v, ok := r.s.Consul.Get(fidKey); !ok || v != fw {
+			return false
+		}
+	}
+	inRoster := map[string]bool{}
+	for _, t := range r.s.Taskman.VerifRoster() {
+		inRoster[t.TaskId] = true
+	}
+	for id, v := range r.s.LiveTasks() {
+		if v.Terminal || v.State == mesos.TASK_STAGING.String() || (v.FwID != "" && v.FwID != fw) {
+			continue
+		}
+		if !inRoster[id] && !killed[id] {
+			return false
+		}
+	}
+	return true
+}
+
 // settle waits until nothing observable changes any more.
 func (r *runner) settle() {
+	r.reconcileBarrier()
 	prev, stable := "", 0
 	for i := 0; i < 800; i++ {
 		cur := r.fingerprint()
-		if cur == prev && (r.consistent() || i > 400) {
+		if cur == prev && ((r.consistent() && (r.reconciled() || i > 500)) || i > 600) {
 			stable++
-			if stable >= 6 {
+			if stable >= 8 {
 				return
 			}
+			r.reconcileBarrier() // (a RECONCILE that came late)
 		} else {
 			stable = 0
 		}
@@ -263,12 +358,13 @@ func (r *runner) observe() obsJ {
 				r.fresh++
 			}
 			o.Subs = append(o.Subs, [2]int{carried, fwNum(c.FwID)})
+			r.memID = c.FwID
 		case "RECONCILE":
 			o.Rec++
 		case "KILL":
 			if i, ok := r.taskIdx[c.Kill]; ok {
 				killed[i] = true
-			} else {
+			} else if !strings.HasPrefix(c.Kill, markerPrefix) { // (the barrier's own marker)
 				killed[9999] = true
 			}
 		}
@@ -328,6 +424,7 @@ func (r *runner) envTaskIds(e uid.ID) []string {
 }
 
 func (r *runner) crash() error {
+	r.memID, _ = r.s.Consul.Get(fidKey) // what NewManager of the new life loads
 	err := r.s.RestartLife()
 	r.envs = map[int]uid.ID{}
 	r.mu.Lock()
@@ -658,13 +755,14 @@ func caseTerm(in inputJ, out childOut) string {
 
 func op(name string) opJ { return opJ{Op: name} }
 
-// corpus: the scripts every run starts with (the refutation witness first).
+// corpus: the scripts every run starts with (first the regression witness of the repaired finding
+// C18-a: before the repair the reconnection killed the locked task -> monitor code 4).
 func corpus() []inputJ {
 	c := func(ops ...opJ) inputJ { return inputJ{Failover: true, Ops: ops} }
 	cr := func(p string, k int) opJ { return opJ{Op: "crash", P: p, K: k} }
 	mk := func(k int) opJ { return opJ{Op: "create", K: k} }
 	return []inputJ{
-		c(mk(1), op("reconnect")),                                     // C18-a witness
+		c(mk(1), op("reconnect")),                                     // C18-a regression witness: the task must survive
 		c(mk(2), opJ{Op: "start", E: 0}, op("reconnect")),             // RUNNING environment, reconnection
 		c(mk(2), cr("idle", 0)),                                       // crash, CONFIGURED
 		c(mk(2), opJ{Op: "start", E: 0}, cr("idle", 0)),               // crash, RUNNING
@@ -682,7 +780,9 @@ func corpus() []inputJ {
 		{Failover: false, Ops: []opJ{op("reconnect"), cr("idle", 0), op("reconnect")}},
 		c(op("reconnect"), cr("idle", 0), op("reconnect"), cr("idle", 0)),
 		c(mk(1), mk(2), opJ{Op: "destroy", E: 0}, op("cleanup"), cr("idle", 0)),
-		c(mk(2), opJ{Op: "mstate", T: 0, S: 8}, opJ{Op: "mstate", T: 1, S: 0}, cr("idle", 0)), // KILLING / STARTING at the master
+		c(mk(2), opJ{Op: "mstate", T: 0, S: 8}, opJ{Op: "mstate", T: 1, S: 0}, cr("idle", 0)),   // KILLING / STARTING at the master
+		c(mk(2), opJ{Op: "mstate", T: 0, S: 8}, opJ{Op: "mstate", T: 1, S: 0}, op("reconnect")), // owned tasks reported KILLING / STARTING are spared too
+		c(mk(2), opJ{Op: "stuck", E: 0}, mk(1), op("reconnect")),                                // one reconnection: leftovers of the stuck teardown killed, the owned task spared
 	}
 }
 
